@@ -142,6 +142,13 @@ func (c *Ctx) LenOf(v ssa.Value) Lin {
 		if a, ok := x.Type().Underlying().(*types.Pointer).Elem().Underlying().(*types.Array); ok {
 			return konst(a.Len())
 		}
+	case *ssa.Extract:
+		// rest, ok := bytes.CutPrefix(s, p): rest is only used where ok holds, and then len(rest) = len(s) - len(p)
+		if call, isCall := x.Tuple.(*ssa.Call); isCall && x.Index == 0 {
+			if n := guard.CalleeName(&call.Call); n == "bytes.CutPrefix" || n == "bytes.CutSuffix" {
+				return c.LenOf(call.Call.Args[0]).add(c.LenOf(call.Call.Args[1]), -1)
+			}
+		}
 	case *ssa.Call:
 		// bytes.Clone / slices.Clone keep the length
 		n := guard.CalleeName(&x.Call)
@@ -338,20 +345,38 @@ func (c *Ctx) FactsToLin(facts []guard.Fact) []Lin {
 			if !okx || bx.Info()&types.IsInteger == 0 {
 				continue
 			}
-			lx, ly := c.Lin(x), c.Lin(y)
+			// x <= min(a, b) gives x <= a and x <= b; max(a, b) <= y gives a <= y and b <= y
 			switch op {
-			case token.LSS: // x < y : y - x - 1 >= 0
-				out = append(out, ly.add(lx, -1).add(konst(1), -1))
-			case token.LEQ:
-				out = append(out, ly.add(lx, -1))
 			case token.GTR:
-				out = append(out, lx.add(ly, -1).add(konst(1), -1))
+				op, x, y = token.LSS, y, x
 			case token.GEQ:
-				out = append(out, lx.add(ly, -1))
-			case token.EQL:
+				op, x, y = token.LEQ, y, x
+			}
+			if op == token.EQL {
+				lx, ly := c.Lin(x), c.Lin(y)
 				out = append(out, lx.add(ly, -1), ly.add(lx, -1))
+				continue
+			}
+			if op != token.LSS && op != token.LEQ {
+				continue
+			}
+			for _, lo := range c.minMaxArgs(x, "max") {
+				for _, hi := range c.minMaxArgs(y, "min") {
+					if op == token.LSS { // lo < hi : hi - lo - 1 >= 0
+						out = append(out, hi.add(lo, -1).add(konst(1), -1))
+					} else {
+						out = append(out, hi.add(lo, -1))
+					}
+				}
 			}
 			continue
+		}
+		if ex, isEx := f.Cond.(*ssa.Extract); isEx && f.True && ex.Index == 1 {
+			if call, isCall := ex.Tuple.(*ssa.Call); isCall {
+				if n := guard.CalleeName(&call.Call); n == "bytes.CutPrefix" || n == "bytes.CutSuffix" {
+					out = append(out, c.LenOf(call.Call.Args[0]).add(c.LenOf(call.Call.Args[1]), -1))
+				}
+			}
 		}
 		if call, val, ok := guard.BoolCallFact(f); ok && val {
 			switch guard.CalleeName(&call.Call) {
@@ -364,6 +389,21 @@ func (c *Ctx) FactsToLin(facts []guard.Fact) []Lin {
 		}
 	}
 	return out
+}
+
+// minMaxArgs: the linear forms of the operands of builtin min/max (kind), or
+// of v itself.
+func (c *Ctx) minMaxArgs(v ssa.Value, kind string) []Lin {
+	if call, ok := guard.Strip(v).(*ssa.Call); ok {
+		if b, isB := call.Call.Value.(*ssa.Builtin); isB && b.Name() == kind {
+			var out []Lin
+			for _, a := range call.Call.Args {
+				out = append(out, c.minMaxArgs(a, kind)...)
+			}
+			return out
+		}
+	}
+	return []Lin{c.Lin(v)}
 }
 
 // nonNeg: all coefficients on non-negative atoms are >= 0, no other atoms,
